@@ -20,6 +20,21 @@ def main():
     if a.replay:
         sys.exit(mod.replay(a.replay))
     run = vlib.Run(a.pid, a.tier, seed)
+    # watchdog: a check that does not finish (e.g. a dataflow fixpoint of the code under test that no longer
+    # terminates) must end as a reported violation, not as a hanging process
+    import threading
+    limit = int(os.environ.get('VERIF_WATCHDOG_S', '0') or 0) or (3600 if a.tier == 'quick' else 6 * 3600)
+
+    def fire():
+        frames = ''.join('\n'.join(traceback.format_stack(f)[-12:]) for f in sys._current_frames().values())
+        run.violation('the check did not finish within %d s: a conversion or analysis of the code under test does not terminate' % limit,
+                      {'stacks_at_timeout': frames[-4000:]}, found_input=False)
+        code = run.finish()
+        sys.stdout.flush()
+        os._exit(code or 1)
+    wd = threading.Timer(limit, fire)
+    wd.daemon = True
+    wd.start()
     try:
         mod.check(run)
     except Exception:
@@ -27,6 +42,7 @@ def main():
         print(tb)
         run.violation('check machinery crashed (tie between model and code could not be established)',
                       {'traceback': tb[-3000:]}, found_input=False)
+    wd.cancel()
     sys.exit(run.finish())
 
 
